@@ -117,7 +117,7 @@ pub fn run(ctx: &Ctx) -> i32 {
     let _ = super::variant::measured();
     let progs = programs09();
     let alphabets: Vec<Vec<Action>> = progs.iter().map(alphabet).collect();
-    let depth = ctx.tier.pick(4, 7);
+    let depth = ctx.tier.pick(6, 8);
     let thorough = ctx.tier == crate::report::Tier::Thorough;
     // plain runs (real VM, no debugger), in both output modes
     let plains: Vec<(Option<Obs>, Option<Obs>)> = progs.iter().map(|p| (plain_run(p, true), plain_run(p, false))).collect();
@@ -180,14 +180,14 @@ pub fn run(ctx: &Ctx) -> i32 {
     let (mut acc, stats) = bfs::explore(roots, &cfg, Some(Env::new(true)), step);
 
     // The real binary: stdout and exit status of `lace debug --minimal --command ...` vs `lace run --minimal`
-    let cli_depth = ctx.tier.pick(2, 3);
+    let cli_depth = ctx.tier.pick(3, 3);
     let lace = Lace::new(&ctx.lace_bin, &ctx.scratch);
     let mut cases: Vec<(usize, Vec<u8>)> = Vec::new();
     for (pi, _) in progs.iter().enumerate() {
         let k = alphabets[pi].len();
         for len in 0..=cli_depth {
             for idx in 0..crate::util::pow(k, len) {
-                if len == cli_depth && len >= 2 && idx % ctx.tier.pick(3, 1) != 0 {
+                if len == cli_depth && len >= 2 && idx % ctx.tier.pick(6, 1) != 0 {
                     continue;
                 }
                 cases.push((pi, crate::util::seq(idx, k, len).iter().map(|x| *x as u8).collect()));
@@ -256,7 +256,7 @@ pub fn run(ctx: &Ctx) -> i32 {
         ctx,
         acc,
         Level { category: "model_checking", bfs: Some((stats.states, stats.transitions, stats.transitions * if thorough { 4 } else { 3 }, stats.max_depth)) },
-        "explicit-state BFS over histories of non-mutating commands (step, step into {1,3}, step out, continue, break add/remove absolute and ^1, break list, print register / ^ / xFFFF, registers, assembly, echo, help) on 14 programs (loop, leaving user space through a bare RET / a branch below the origin / a jump to xFFFF, branches, nested JSR/RET, recursive CALL/RETS, HALT in the middle, JSRR + self-branch, self-modifying with output, `.break` in the source with output, running off the end, ending in an exception, executing an unknown trap). Every transition runs history+`quit` and history+end-of-input (thorough: also in non-minimal mode) on the real debugger and compares how the run ends, the final registers/PC/CC/all memory and the program output with the same image run without a debugger; states deduplicated on the paused product digest. Plus every history up to depth 2 (quick, last level stride 3) / 3 through the real binary: exit status and stdout of `lace debug --minimal --command` vs `lace run --minimal`. Plus long executions through the real binary (5 scripts on a subroutine with 65 536 unpaired calls; thorough: 2 scripts on a program of 2^32 + 229 381 instructions), which drive the debugger's own counters past their widths. non-trivial = agreeing transitions / CLI histories",
+        "explicit-state BFS over histories of non-mutating commands (step, step into {1,3}, step out, continue, break add/remove absolute and ^1, break list, print register / ^ / xFFFF, registers, assembly, echo, help) on 14 programs (loop, leaving user space through a bare RET / a branch below the origin / a jump to xFFFF, branches, nested JSR/RET, recursive CALL/RETS, HALT in the middle, JSRR + self-branch, self-modifying with output, `.break` in the source with output, running off the end, ending in an exception, executing an unknown trap). Every transition runs history+`quit` and history+end-of-input (thorough: also in non-minimal mode) on the real debugger and compares how the run ends, the final registers/PC/CC/all memory and the program output with the same image run without a debugger; states deduplicated on the paused product digest. Plus every history up to depth 3 (quick: last level stride 6) through the real binary: exit status and stdout of `lace debug --minimal --command` vs `lace run --minimal`. Plus long executions through the real binary (5 scripts on a subroutine with 65 536 unpaired calls; thorough: 2 scripts on a program of 2^32 + 229 381 instructions), which drive the debugger's own counters past their widths. non-trivial = agreeing transitions / CLI histories",
         !stats.capped,
         &["program-ends-normally", "program-ends-in-error-exit", "program-prints", "cli-status-0", "cli-status-nonzero"],
         &["differential oracle: the real VM without debugger", "HALT's own banner is printed with println! and is compared through the CLI part only"],
